@@ -23,7 +23,13 @@
    lookup, i.e. the state before or after some mutation overlapping the lookup.
 
    Abstractions (stated in the evidence): the uncached computation reads ONE registry state (its
-   linearisation point); the nested dictionaries of one cache are one handle.
+   linearisation point); the nested dictionaries of one cache are one handle.  For the Python walkers
+   (_lookup / _lookupAll / _subscriptions, which iterate ``_extendors[provided]`` while key __hash__ /
+   __eq__ or other threads may run) this needs the list handed to a running walker to be an immutable
+   snapshot: add_extendor / remove_extendor must ASSIGN a new list, never mutate the old one in place.
+   That is not part of this model; it is a fail-closed shape check of adapter.py on every run
+   (harness/props/c11.py extendors_are_snapshots) plus a deterministic scenario in both implementations
+   (a key's __hash__ mutating the registry inside a walker: the answer must be the one before or after).
    Executable definitions only; proofs in Proofs/Race.v. *)
 From Coq Require Import List Arith Bool.
 Import ListNotations.
